@@ -9,14 +9,14 @@ CONSTANTS
   Iters = 2
   Bp = 1
   LineStarts = {0, 2}
-  MaxCmd = 2
+  MaxCmd = 4
   Cmds = {"continue","stepi","step"}
   RunOut = TRUE
-  Sigs = {"USR1","ALRM","INT"}
+  Sigs = {"USR1","USR2","ALRM","INT"}
   Quiet = {"ALRM"}
   Transparent = {"INT"}
-  MaxSend = 2
-  ProcTarget = FALSE
+  MaxSend = 3
+  ProcTarget = TRUE
   FixQuietDup = TRUE
   FixQuietFront = FALSE
   FixStepIntr = FALSE
